@@ -225,7 +225,7 @@ package patch
 //@   ensures pages_rx: perm_exec_kept()
 //@   ensures lock_state: locked() == old(locked())
 //@   panics_only_if bad_replacement: !kind_has_pointer(rv_kind(p.replacementValue))
-//@   ensures_on_panic nothing_written: text_unchanged()
+//@   ensures_on_panic nothing_written: text_unchanged() && table_inv() && !locked()
 
 //@ func (p *patch) unsafePatchValue
 //@   props C02 C01 C11 C13 C14
@@ -338,3 +338,122 @@ package patch
 //@   panics_only_if rejected: origin == nil || replacement == nil || rv_kind(value_of(origin)) != reflect.Func || rv_kind(value_of(replacement)) != reflect.Func
 //@     | || !sig_compatible(rv_type(value_of(origin)), rv_type(value_of(replacement)))
 //@   ensures_on_panic nothing_written: text_unchanged() && table_inv() && !locked()
+
+//@ func UnsafePatchTrampoline
+//@   props C02 C01 C11 C13 C14
+//@   requires table: table_inv()
+//@   requires table_alive: forall k uintptr :: has(patches, k) ==> alive(patches[k])
+//@   requires unlocked: !locked()
+//@   assigns mapof(patches), anyfield(patch, guard), textmem, perm, rw_wheld[addr(memory.memoryAccessLock)], rw_rheld[addr(memory.memoryAccessLock)], mutex_held[addr(patchesLock)]
+//@   ensures table_kept: table_inv()
+//@   ensures error_no_guard: result1 != nil ==> result0 == nil
+//@   ensures guard_ready: result1 == nil ==> result0 != nil && guard_wf(result0) && !result0.applied && has(patches, result0.origin) && patches[result0.origin].guard == result0
+//@   ensures jump_through_replacement_funcvalue: result1 == nil ==> x86_is_movabs_rdx_jmp(result0.jumpBytes, 1) && x86_movabs_rdx_imm(result0.jumpBytes, 1) == bytecode.funcvalue_word(value_of(replacement))
+//@   ensures gc_anchor: result1 == nil ==> patches[result0.origin].replacementValue == value_of(replacement)
+//@   ensures captured_text: result1 == nil ==> window_is(result0.origin, result0.originBytes)
+//@   ensures not_diverted_yet: result1 == nil ==> forall a uintptr :: result0.origin <= a && a < result0.origin + 13 ==> textmem[a] == old(textmem[a]) || was_patched(result0.origin)
+//@   ensures error_leaves_unmocked_targets_alone: result1 != nil ==> forall a uintptr :: textmem[a] == old(textmem[a]) || exists k uintptr :: was_patched(k) && k <= a && a < k + 13
+//@   ensures pages_rx: perm_exec_kept()
+//@   ensures lock_state: !locked()
+
+//@ func UnsafePatch
+//@   props C02 C01 C11 C13 C14
+//@   requires table: table_inv()
+//@   requires table_alive: forall k uintptr :: has(patches, k) ==> alive(patches[k])
+//@   requires unlocked: !locked()
+//@   assigns mapof(patches), anyfield(patch, guard), textmem, perm, rw_wheld[addr(memory.memoryAccessLock)], rw_rheld[addr(memory.memoryAccessLock)], mutex_held[addr(patchesLock)]
+//@   ensures table_kept: table_inv()
+//@   ensures error_no_guard: result1 != nil ==> result0 == nil
+//@   ensures guard_ready: result1 == nil ==> result0 != nil && guard_wf(result0) && !result0.applied && has(patches, result0.origin) && patches[result0.origin].guard == result0
+//@   ensures jump_through_replacement_funcvalue: result1 == nil ==> x86_is_movabs_rdx_jmp(result0.jumpBytes, 1) && x86_movabs_rdx_imm(result0.jumpBytes, 1) == bytecode.funcvalue_word(value_of(replacement))
+//@   ensures gc_anchor: result1 == nil ==> patches[result0.origin].replacementValue == value_of(replacement)
+//@   ensures captured_text: result1 == nil ==> window_is(result0.origin, result0.originBytes)
+//@   ensures not_diverted_yet: result1 == nil ==> forall a uintptr :: result0.origin <= a && a < result0.origin + 13 ==> textmem[a] == old(textmem[a]) || was_patched(result0.origin)
+//@   ensures error_leaves_unmocked_targets_alone: result1 != nil ==> forall a uintptr :: textmem[a] == old(textmem[a]) || exists k uintptr :: was_patched(k) && k <= a && a < k + 13
+//@   ensures pages_rx: perm_exec_kept()
+//@   ensures lock_state: !locked()
+
+//@ func PtrTrampoline
+//@   props C02 C01 C11 C13 C14
+//@   requires address: addr13_ok(originPtr)
+//@   requires table: table_inv()
+//@   requires table_alive: forall k uintptr :: has(patches, k) ==> alive(patches[k])
+//@   requires unlocked: !locked()
+//@   assigns mapof(patches), anyfield(patch, guard), textmem, perm, rw_wheld[addr(memory.memoryAccessLock)], rw_rheld[addr(memory.memoryAccessLock)], mutex_held[addr(patchesLock)]
+//@   ensures table_kept: table_inv()
+//@   ensures error_no_guard: result1 != nil ==> result0 == nil
+//@   ensures guard_ready: result1 == nil ==> result0 != nil && guard_wf(result0) && !result0.applied && has(patches, result0.origin) && patches[result0.origin].guard == result0
+//@   ensures jump_through_replacement_funcvalue: result1 == nil ==> x86_is_movabs_rdx_jmp(result0.jumpBytes, 1) && x86_movabs_rdx_imm(result0.jumpBytes, 1) == bytecode.funcvalue_word(value_of(replacement))
+//@   ensures gc_anchor: result1 == nil ==> patches[result0.origin].replacementValue == value_of(replacement)
+//@   ensures captured_text: result1 == nil ==> window_is(result0.origin, result0.originBytes)
+//@   ensures not_diverted_yet: result1 == nil ==> forall a uintptr :: result0.origin <= a && a < result0.origin + 13 ==> textmem[a] == old(textmem[a]) || was_patched(result0.origin)
+//@   ensures error_leaves_unmocked_targets_alone: result1 != nil ==> forall a uintptr :: textmem[a] == old(textmem[a]) || exists k uintptr :: was_patched(k) && k <= a && a < k + 13
+//@   ensures pages_rx: perm_exec_kept()
+//@   ensures lock_state: !locked()
+//@   panics_only_if bad_replacement: !kind_has_pointer(rv_kind(value_of(replacement)))
+//@   ensures_on_panic nothing_written: text_unchanged() && table_inv() && !locked()
+
+//@ func Ptr
+//@   props C02 C01 C11 C13 C14
+//@   requires address: addr13_ok(originPtr)
+//@   requires table: table_inv()
+//@   requires table_alive: forall k uintptr :: has(patches, k) ==> alive(patches[k])
+//@   requires unlocked: !locked()
+//@   assigns mapof(patches), anyfield(patch, guard), textmem, perm, rw_wheld[addr(memory.memoryAccessLock)], rw_rheld[addr(memory.memoryAccessLock)], mutex_held[addr(patchesLock)]
+//@   ensures table_kept: table_inv()
+//@   ensures error_no_guard: result1 != nil ==> result0 == nil
+//@   ensures guard_ready: result1 == nil ==> result0 != nil && guard_wf(result0) && !result0.applied && has(patches, result0.origin) && patches[result0.origin].guard == result0
+//@   ensures jump_through_replacement_funcvalue: result1 == nil ==> x86_is_movabs_rdx_jmp(result0.jumpBytes, 1) && x86_movabs_rdx_imm(result0.jumpBytes, 1) == bytecode.funcvalue_word(value_of(replacement))
+//@   ensures gc_anchor: result1 == nil ==> patches[result0.origin].replacementValue == value_of(replacement)
+//@   ensures captured_text: result1 == nil ==> window_is(result0.origin, result0.originBytes)
+//@   ensures not_diverted_yet: result1 == nil ==> forall a uintptr :: result0.origin <= a && a < result0.origin + 13 ==> textmem[a] == old(textmem[a]) || was_patched(result0.origin)
+//@   ensures error_leaves_unmocked_targets_alone: result1 != nil ==> forall a uintptr :: textmem[a] == old(textmem[a]) || exists k uintptr :: was_patched(k) && k <= a && a < k + 13
+//@   ensures pages_rx: perm_exec_kept()
+//@   ensures lock_state: !locked()
+//@   panics_only_if bad_replacement: !kind_has_pointer(rv_kind(value_of(replacement)))
+//@   ensures_on_panic nothing_written: text_unchanged() && table_inv() && !locked()
+
+//@ func InstanceMethodTrampoline
+//@   props C02 C01 C11 C13 C14
+//@   requires type: originType != nil
+//@   requires table: table_inv()
+//@   requires table_alive: forall k uintptr :: has(patches, k) ==> alive(patches[k])
+//@   requires unlocked: !locked()
+//@   assigns mapof(patches), anyfield(patch, guard), textmem, perm, rw_wheld[addr(memory.memoryAccessLock)], rw_rheld[addr(memory.memoryAccessLock)], mutex_held[addr(patchesLock)]
+//@   ensures table_kept: table_inv()
+//@   ensures error_no_guard: result1 != nil ==> result0 == nil
+//@   ensures unknown_method_rejected: !rt_has_method(originType, methodName) ==> result1 != nil && text_unchanged()
+//@   ensures guard_ready: result1 == nil ==> result0 != nil && guard_wf(result0) && !result0.applied && has(patches, result0.origin) && patches[result0.origin].guard == result0
+//@   ensures jump_through_replacement_funcvalue: result1 == nil ==> x86_is_movabs_rdx_jmp(result0.jumpBytes, 1) && x86_movabs_rdx_imm(result0.jumpBytes, 1) == bytecode.funcvalue_word(value_of(replacement))
+//@   ensures gc_anchor: result1 == nil ==> patches[result0.origin].replacementValue == value_of(replacement)
+//@   ensures captured_text: result1 == nil ==> window_is(result0.origin, result0.originBytes)
+//@   ensures not_diverted_yet: result1 == nil ==> forall a uintptr :: result0.origin <= a && a < result0.origin + 13 ==> textmem[a] == old(textmem[a]) || was_patched(result0.origin)
+//@   ensures error_leaves_unmocked_targets_alone: result1 != nil ==> forall a uintptr :: textmem[a] == old(textmem[a]) || exists k uintptr :: was_patched(k) && k <= a && a < k + 13
+//@   ensures pages_rx: perm_exec_kept()
+//@   ensures lock_state: !locked()
+//@   panics_only_if rejected: originType == nil || replacement == nil || rv_kind(value_of(replacement)) != reflect.Func
+//@     | || !sig_compatible(rv_type(rt_method_func(originType, methodName)), rv_type(value_of(replacement)))
+//@   ensures_on_panic nothing_written: text_unchanged() && table_inv() && !locked()
+
+//@ func InstanceMethod
+//@   props C02 C01 C11 C13 C14
+//@   requires type: originType != nil
+//@   requires table: table_inv()
+//@   requires table_alive: forall k uintptr :: has(patches, k) ==> alive(patches[k])
+//@   requires unlocked: !locked()
+//@   assigns mapof(patches), anyfield(patch, guard), textmem, perm, rw_wheld[addr(memory.memoryAccessLock)], rw_rheld[addr(memory.memoryAccessLock)], mutex_held[addr(patchesLock)]
+//@   ensures table_kept: table_inv()
+//@   ensures error_no_guard: result1 != nil ==> result0 == nil
+//@   ensures unknown_method_rejected: !rt_has_method(originType, methodName) ==> result1 != nil && text_unchanged()
+//@   ensures guard_ready: result1 == nil ==> result0 != nil && guard_wf(result0) && !result0.applied && has(patches, result0.origin) && patches[result0.origin].guard == result0
+//@   ensures jump_through_replacement_funcvalue: result1 == nil ==> x86_is_movabs_rdx_jmp(result0.jumpBytes, 1) && x86_movabs_rdx_imm(result0.jumpBytes, 1) == bytecode.funcvalue_word(value_of(replacement))
+//@   ensures gc_anchor: result1 == nil ==> patches[result0.origin].replacementValue == value_of(replacement)
+//@   ensures captured_text: result1 == nil ==> window_is(result0.origin, result0.originBytes)
+//@   ensures not_diverted_yet: result1 == nil ==> forall a uintptr :: result0.origin <= a && a < result0.origin + 13 ==> textmem[a] == old(textmem[a]) || was_patched(result0.origin)
+//@   ensures error_leaves_unmocked_targets_alone: result1 != nil ==> forall a uintptr :: textmem[a] == old(textmem[a]) || exists k uintptr :: was_patched(k) && k <= a && a < k + 13
+//@   ensures pages_rx: perm_exec_kept()
+//@   ensures lock_state: !locked()
+//@   panics_only_if rejected: originType == nil || replacement == nil || rv_kind(value_of(replacement)) != reflect.Func
+//@     | || !sig_compatible(rv_type(rt_method_func(originType, methodName)), rv_type(value_of(replacement)))
+//@   ensures_on_panic nothing_written: text_unchanged() && table_inv() && !locked()
+
